@@ -59,6 +59,9 @@ PAIRS = (
     ("HKY85", "HKY85", "scope2-indep"),  # the null itself has a two-scope parameter
     ("GTR", "GTR", "scope2-indep"),
     ("HKY85", "HKY85", "scope2-edges"),
+    ("F81", "HKY85", "matrix+scope"),  # richer matrix AND a per-edge parameter at once
+    ("HKY85", "GTR", "matrix+scope"),
+    ("HKY85", "TN93", "matrix+scope"),
 )
 
 
@@ -91,6 +94,8 @@ def gen(rng, tier, index):
         "scope_edges": [rng.randint(0, 7) for _ in range(rng.randint(1, 2))],
         "bounds": rng.random() < 0.25,
         "checkpoint": rng.random() < 0.12,
+        "limit_action": rng.choice(["ignore", "ignore", "ignore", "raise", "warn"]),
+        "chain": rng.random() < 0.5,
     }
     return plan
 
@@ -148,6 +153,14 @@ def build(plan, which, aln, tree):
     lf = sm.make_likelihood_function(tree, **kw)
     lf.set_alignment(aln)
     edges = [e.name for e in tree.get_edge_vector(include_root=False)]
+    if plan["kind"] == "matrix+scope":
+        if which == "alt":
+            pars = [p for p in lf.get_param_names() if p not in ("mprobs", "length")]
+            if plan["start"][1] > 0.5:
+                lf.set_time_heterogeneity(is_independent=True)
+            else:
+                lf.set_param_rule(pars[int(plan["start"][0] * len(pars)) % len(pars)], is_independent=True)
+        return lf
     if plan["kind"].startswith("scope2"):
         pars = [p for p in lf.get_param_names() if p not in ("mprobs", "length")]
         par = pars[plan["start"][0] > 0.5 and len(pars) > 1]
@@ -225,8 +238,8 @@ def failing_evaluations(rate, salt, exc_kind, counter):
 
 
 def opt_kwargs(plan, n, local):
-    kw = {"max_evaluations": n, "local": local, "limit_action": "ignore", "show_progress": False,
-          "tolerance": plan["tolerance"]}
+    kw = {"max_evaluations": n, "local": local, "limit_action": plan.get("limit_action", "ignore"),
+          "show_progress": False, "tolerance": plan["tolerance"]}
     if plan["max_restarts"] is not None:
         kw["max_restarts"] = plan["max_restarts"]
     if local is not True:
@@ -266,6 +279,13 @@ def optimise_checked(plan, lf, n, local, res, label, replay, counter, inject=Tru
         rate = plan["fail_rate"] if inject else 0
         with failing_evaluations(rate, plan["fail_salt"], plan["fail_exc"], counter):
             calc = lf.optimise(return_calculator=True, **kw)
+    except ArithmeticError as e:
+        # limit_action="raise": the documented way of reporting the cut-off; the
+        # function must nevertheless hold the best point seen (update in finally)
+        if "FORCED EXIT" not in str(e):
+            res.add(f"C16.optimise-raised/{stage}:ArithmeticError", f"{label}: optimise({kw}) raised {e!r}", replay)
+            return False
+        res.probe("limit_action-raise")
     except ValueError as e:
         if "Initial parameter values must" in str(e) and rate:
             res.probe("start-point-in-failure-region")
@@ -289,7 +309,6 @@ def optimise_checked(plan, lf, n, local, res, label, replay, counter, inject=Tru
         return False
     if not check_bounds(lf, res, stage, detail, replay):
         return False
-    used = getattr(calc, "evaluations", None)
     return True
 
 
@@ -364,7 +383,7 @@ def run(plan, tier="quick") -> RunResult:
             if _checkpoint_scenario(plan, aln, tree, saved_rules, res, replay, counter) is False:
                 return _finish(res, h, plan)
         # the same pair through the hypothesis app
-        if plan["via_app"] and plan["kind"] in ("matrix",):
+        if plan["via_app"] and plan["kind"] in ("matrix", "matrix+scope"):
             from cogent3 import get_app
 
             res.probe("hypothesis-app")
@@ -372,9 +391,29 @@ def run(plan, tier="quick") -> RunResult:
             ob = {"max_evaluations": max(plan["n1"], 30), "limit_action": "ignore"}
             try:
                 m0 = get_app("model", plan["null"], tree=tree, opt_args=ob, show_progress=False)
-                m1 = get_app("model", plan["alt"], tree=tree, opt_args=oa, show_progress=False)
-                hyp = get_app("hypothesis", m0, m1)
+                m1kw = {"time_het": "max"} if plan["kind"] == "matrix+scope" else {}
+                m1 = get_app("model", plan["alt"], name=f"{plan['alt']}-alt", tree=tree, opt_args=oa,
+                             show_progress=False, **m1kw)
+                chain = [plan["null"], f"{plan['alt']}-alt"]
+                extra = {"HKY85": ["GTR", "GN"], "TN93": ["GTR"], "GTR": ["GN"], "K80": []}.get(plan["alt"], [])
+                alts = [m1]
+                if plan.get("chain") and extra and plan["kind"] == "matrix":
+                    # a sequential hypothesis with several alternatives: each is
+                    # initialised from the preceding fitted model
+                    res.probe("hypothesis-app-chain")
+                    for nm in extra:
+                        chain.append(nm)
+                        alts.append(get_app("model", nm, tree=tree, opt_args=oa, show_progress=False))
+                hyp = get_app("hypothesis", m0, *alts)
                 result = hyp(aln)
+                if result and len(chain) > 2:
+                    for a, b in zip(chain, chain[1:]):
+                        la, lb = result[a].lnL, result[b].lnL
+                        if lb < la - 2.1e-6 * max(1.0, abs(la)):
+                            res.add(f"C16.negative-LR/app-chain:{a}->{b}",
+                                    f"sequential hypothesis {chain}: lnL({b})={lb!r} < lnL({a})={la!r}; "
+                                    f"null opt_args={ob} alt opt_args={oa}", replay)
+                            break
                 if not result:
                     res.probe("hypothesis-not-completed")
                 else:
@@ -423,6 +462,7 @@ def _checkpoint_scenario(plan, aln, tree, saved_rules, res, replay, counter):
         first = build(plan, "alt", aln, tree)
         first.apply_param_rules(saved_rules)
         kw = opt_kwargs(plan, max(plan["n2"], 40), False)
+        kw["limit_action"] = "ignore"
         try:
             with failing_evaluations(0, 1, "arith", counter):
                 first.optimise(filename=ck, interval=3, **kw)
@@ -444,6 +484,7 @@ def _checkpoint_scenario(plan, aln, tree, saved_rules, res, replay, counter):
                 pass
         before = second.lnL
         kw2 = opt_kwargs(plan, plan["n2"], None if plan["local2"] is True else plan["local2"])
+        kw2["limit_action"] = "ignore"
         try:
             with failing_evaluations(0, 1, "arith", counter):
                 second.optimise(filename=ck, interval=3, **kw2)
@@ -478,7 +519,7 @@ def _finish(res, h, plan):
 
 def describe(plan):
     return {k: plan[k] for k in ("null", "alt", "kind", "tree", "len", "div", "start", "n1", "n2", "local1", "local2",
-                                 "seed", "tolerance", "max_restarts", "fail_rate", "fail_salt", "fail_exc", "sweep", "via_app",
+                                 "seed", "tolerance", "max_restarts", "fail_rate", "fail_salt", "fail_exc", "sweep", "via_app", "limit_action",
                                  "bounds")}
 
 
@@ -490,8 +531,8 @@ CROSS_HASHSEED = 64
 
 EVIDENCE = {
     "rule": (
-        "scenario = nested pair (20 pairs: by rate matrix F81/HKY85/TN93/GTR/GN, JC69/K80; by motif-probability "
-        "freedom K80->HKY85, JC69->F81; by scope: global vs per-edge / edge-set parameter, and a null that already has a two-scope parameter refined further; MG94HKY->MG94GTR in thorough) "
+        "scenario = nested pair (23 pairs: by rate matrix F81/HKY85/TN93/GTR/GN, JC69/K80; by motif-probability "
+        "freedom K80->HKY85, JC69->F81; by scope: global vs per-edge / edge-set parameter, a null that already has a two-scope parameter refined further, and pairs nested by matrix and scope at once; MG94HKY->MG94GTR in thorough) "
         "x tree (3-5 taxa) x simulated alignment (length, divergence, base composition) x start values x optimiser "
         "settings (local / global / both, tolerance, max_restarts, seed, bounds) x cut-offs n1, n2 from 1..400 x "
         "a plan-chosen pseudo-random region of parameter space (0/3/10/30% of points) in which a calculator update is "
